@@ -26,6 +26,9 @@ type Clock struct {
 	NoTick   bool
 	EpochV   uint64
 	DriftPPB int64 // Drift(d) = d * DriftPPB / 1e9
+	// DriftFixed, when non-zero, is returned by Drift for every interval (for
+	// bounds too large to be formed as a product in int64)
+	DriftFixed time.Duration
 	// StepBumpsEpoch mirrors driver/clocks.SystemClock.Step.
 	StepBumpsEpoch bool
 	Steps          []time.Duration
@@ -83,6 +86,9 @@ func (c *Clock) Peek() time.Time {
 }
 
 func (c *Clock) Drift(d time.Duration) time.Duration {
+	if c.DriftFixed != 0 {
+		return c.DriftFixed
+	}
 	return time.Duration(int64(d) * c.DriftPPB / 1_000_000_000)
 }
 
